@@ -439,7 +439,7 @@ peg::parser! {
 
         // N.B. The name must be followed by a compound command start ({ or ()
         rule coproc_name() -> ast::Word =
-            w:fname() linebreak() &(specific_word("{") / specific_operator("(")) {
+            w:non_reserved_fname() linebreak() &(specific_word("{") / specific_operator("(")) {
                 w
             }
 
